@@ -322,6 +322,12 @@ func caseAddChain(t *testing.T, sp addSpec) lib.Case {
 		hits := sp.multi.hits()
 		got := -1
 		for _, h := range hits {
+			// shards configured with one URI look alike to the transport: a request to that URI counts
+			// as one to the expected shard when it is one of them (WHICH key the answer was held to
+			// shows in what was accepted, below)
+			if sp.multi.sameURI(h, want) {
+				h = want
+			}
 			switch {
 			case got == -1 || got == h:
 				got = h
